@@ -115,6 +115,37 @@ func VerifC15_SpecialisationBound() {
 	zzverif.Reach("spec-bound")
 }
 
+// A route with more type signatures than the cache keeps (so some variants were
+// evicted), then redefined together with an invalidation: whichever signature
+// is asked for next - kept, evicted or new - gets code for the new definition.
+func VerifC15_EvictedVariantAfterInvalidate() {
+	j := NewJITCompiler()
+	kinds := []string{"int", "float", "string", "bool", "array", "object", "null", "any"}
+	n := 5 + zzverif.Choice("extra", 3)
+	for k := 0; k < n; k++ {
+		bc, err := j.CompileRouteWithTypes("r", zzDef(0), map[string]string{"input": kinds[k]})
+		zzCheckBytecode(bc, err, 0, "specialisation")
+	}
+	how := "InvalidateCache"
+	switch zzverif.Choice("invalidation", 3) {
+	case 0:
+		j.InvalidateCache("r")
+	case 1:
+		j.ClearCache()
+		how = "ClearCache"
+	default:
+		j.RecordDeoptimization("r", "type mismatch", map[string]string{"input": "string"})
+		j.InvalidateCache("r")
+		how = "deopt+InvalidateCache"
+	}
+	ask := zzverif.Choice("signature asked for", 8)
+	bc, err := j.CompileRouteWithTypes("r", zzDef(1), map[string]string{"input": kinds[ask]})
+	zzCheckBytecode(bc, err, 1, "CompileRouteWithTypes("+kinds[ask]+") after "+how+" with evicted variants")
+	bc, err = j.CompileRoute("r", zzDef(1))
+	zzCheckBytecode(bc, err, 1, "CompileRoute after "+how+" with evicted variants")
+	zzverif.Reach("evicted-variant")
+}
+
 func VerifC15_Twin() {
 	j := NewJITCompiler()
 	bc, err := j.CompileRoute("r", zzDef(0))
